@@ -27,6 +27,13 @@ MUTANTS = [
     ('stack order swapped', [(M + 'compute_far_field', "np.array ([t1.T, t2.T, t3.T]).T", "np.array ([t1.T, t3.T, t2.T]).T")], ['total']),
     ('default power ignores request', [(M + 'compute_far_field', "self.ff_power = pwr or self.power", "self.ff_power = self.power")], ['ff_power-default']),
 ]
+MUTANTS += [
+    ('theta vector y component sign', [(M + 'compute_far_field', ",  zcs_m.imag * acs_m.imag - 1j * (zcs_m.real * acs_m.imag)", ",  zcs_m.imag * acs_m.imag + 1j * (zcs_m.real * acs_m.imag)")], ['triad']),
+    ('radial vector x/y swapped', [(M + 'compute_far_field', "[ -zcs_m.imag * acs_m.real + 1j * (zcs_m.real * acs_m.real)", "[ -zcs_m.imag * acs_m.imag + 1j * (zcs_m.real * acs_m.real)")], ['triad']),
+    ('phi vector not orthogonal', [(M + 'compute_far_field', "vv  = np.array ([acs_m.imag, acs_m.real]).T", "vv  = np.array ([acs_m.real, acs_m.imag]).T")], ['triad']),
+    ('azimuth phasor conjugated', [(M + 'compute_far_field', "acs  = np.e ** (-1j * azimuth_angle.angle_rad ())", "acs  = np.e ** (1j * azimuth_angle.angle_rad ())")], ['triad']),
+    ('phase uses theta vector', [(M + 'compute_far_field', "(pv.point * kvec * rvrp.real, axis = 2)", "(pv.point * kvec * rvrp.imag, axis = 2)")], ['triad', 'phase']),
+]
 REFACTORS = [
     ('log10', [(M + 'compute_far_field', "np.log (t123 [cond]) / np.log (10) * 10", "10 * np.log10 (t123 [cond])")]),
     ('ratio inline', [(M + 'compute_far_field', "Far_Field_Pattern (azi_d, zen_d, p123, h12.T, x34.T, rat)", "Far_Field_Pattern (azi_d, zen_d, p123, h12.T, x34.T, self.ff_power / self.power)")]),
